@@ -161,6 +161,38 @@ let handle2 (p : string) : (string * string) option =
   | ["null"; l] ->
     let st = int_of_n (verify_null (n_of_int (ios l))) in
     Some (Printf.sprintf "inf=rej;req=rej;dreq=rej;dresp=rej;resp=rej%d" st, "null:" ^ string_of_int st)
+  | ["combine"; x; y] ->
+    let x = parse_cmd x and y = parse_cmd y in
+    (match combine_responses x y with
+     | None -> Some ("comb=none", "combine:none")
+     | Some c ->
+       let rp = match pack c with Some b -> hex_of_bytes b | None -> "none" in
+       Some ("comb=" ^ cmd_s c ^ ";packed=" ^ rp, "combine:" ^ (if rp = "none" then "toolong" else "packs")))
+  | ["reply"; rq; t; h] ->
+    let rqo = if rq = "-" then None else Some (parse_cmd rq) in
+    let tm = match String.split_on_char ',' t with
+      | [a; b; c; d] -> (((n_of_string a, n_of_string b), n_of_string c), n_of_string d)
+      | _ -> failwith "bad timing" in
+    let fr = { f_data = bytes_of_hex h; f_timing = tm } in
+    let frame_s (f : frame) =
+      let (((a, b), c), d) = f.f_timing in
+      Printf.sprintf "%s/%s,%s,%s,%s" (hex_of_bytes f.f_data) (string_of_n a) (string_of_n b) (string_of_n c) (string_of_n d) in
+    let frames pre l = String.concat "" (List.mapi (fun i f -> Printf.sprintf ";%s%d=%s" pre i (frame_s f)) l) in
+    let (res, fl) = reply_from_frame rqo fr in
+    let (dst, dl) = dub_reply fr in
+    let xor32 a m = n_of_string (string_of_int ((int_of_string (string_of_n a)) lxor m)) in
+    let (((a, b), c), d) = tm in
+    let variants = [
+      fr; { fr with f_timing = (((xor32 a 1, b), c), d) }; { fr with f_timing = (((a, xor32 b 0x80000000), c), d) };
+      { fr with f_timing = (((a, b), xor32 c 0x100), d) }; { fr with f_timing = (((a, b), c), xor32 d 1) };
+      { fr with f_data = fr.f_data @ [N0] };
+      { fr with f_data = (match List.rev fr.f_data with [] -> [] | x :: r -> List.rev (n_of_int ((int_of_n x) lxor 1) :: r)) } ] in
+    let eq = String.concat "" (List.map (fun v -> bool01 (frame_eq v fr)) variants) in
+    Some (Printf.sprintf "n=%d%s;orig=%s;st=%s;dn=%d%s;dst=%d;dresp=0;feq=%s"
+            (List.length fl) (frames "f" fl) (frame_s fr)
+            (match res with Ok _ -> "ok" | Reject st -> string_of_int (int_of_n st) | Oob -> "OOB")
+            (List.length dl) (frames "d" dl) (int_of_n dst) eq,
+          "reply:" ^ (match res with Ok _ -> "accepted" | _ -> "rejected"))
   | ["eq"; _; x; _; y] ->
     let x = parse_cmd x and y = parse_cmd y in
     let e = cmd_eq_cpp x y in
@@ -171,7 +203,7 @@ let prefix_keys (r : string) (pre : string) : string =
 let handle_c (p : string) : string =
   match handle2 p with
   | Some (r, k) ->
-    let builder = String.length p >= 5 && (String.sub p 0 5 = "build" || String.sub p 0 5 = "disc ") in
+    let builder = String.length p >= 5 && (String.sub p 0 5 = "build" || String.sub p 0 5 = "disc " || String.sub p 0 5 = "combi" || String.sub p 0 5 = "reply") in
     (if builder then prefix_keys r "b_" else r) ^ ";class=" ^ k
   | None ->
   let r = handle p in
